@@ -39,7 +39,7 @@ import (
 // alphabet
 
 type op struct {
-	K    string `json:"k"`              // addT addM badT badM stoT stoM rm start stop trk compact reopen
+	K    string `json:"k"`              // addT addM badT badM stoT stoM rm start stop trk compact reopen reopenX
 	T    string `json:"t,omitempty"`    // target slot: a b m auto
 	Keep bool   `json:"keep,omitempty"` // rm: keepData
 }
@@ -255,6 +255,9 @@ func (m *model) nextOps() []op {
 		}
 	}
 	out = append(out, op{K: "compact"}, op{K: "reopen"})
+	if m.find("a") != nil {
+		out = append(out, op{K: "reopenX"})
+	}
 	return out
 }
 
@@ -280,10 +283,13 @@ type histResult struct {
 // ---------------------------------------------------------------------------------------------
 // storage provider: ordinary file storage, except that it refuses the id "bad"
 
-type provider struct{ root string }
+type provider struct {
+	root   string
+	refuse string // additionally refused id (a record that reads fine but cannot be loaded)
+}
 
 func (p provider) GetStorage(id string) (storage.Storage, error) {
-	if id == "bad" {
+	if id == "bad" || (p.refuse != "" && id == p.refuse) {
 		return nil, errors.New("verif: storage provider refuses this id")
 	}
 	return filestorage.New(filepath.Join(p.root, id), 0o750)
@@ -795,6 +801,8 @@ func (r *runner) apply(o op) {
 		r.doCompact()
 	case "reopen":
 		r.doReopen(true)
+	case "reopenX":
+		r.doReopenRefused()
 	default:
 		r.res.Harness = "unknown op " + o.K
 	}
@@ -863,6 +871,42 @@ func (r *runner) closeAndCheckFile(inspect bool) bool {
 		}
 	}
 	return true
+}
+
+// doReopenRefused: Close, then NewSession with a storage provider that refuses torrent "a": its record reads
+// fine but cannot be loaded. The session must come up without it, report the id as invalid, hold no port for
+// it; CleanDatabase then removes the record, and a plain restart follows.
+func (r *runner) doReopenRefused() {
+	w := r.m.find("a")
+	if w == nil || !r.closeAndCheckFile(true) {
+		return
+	}
+	r.cfg.CustomStorage = provider{root: r.cfg.DataDir, refuse: w.ID}
+	err := r.openSession()
+	r.cfg.CustomStorage = provider{root: r.cfg.DataDir}
+	if err != nil {
+		r.fail("C14.seq.reopen.error", "NewSession on the same database with one unloadable record: %v", err)
+		r.res.Harness = "cannot continue: " + err.Error()
+		return
+	}
+	r.cnt("reopen_refused")
+	if inv := r.s.VerifC14InvalidIDs(); !stringsEqual(inv, []string{w.ID}) {
+		r.fail("C14.seq.reopen-refused.invalid-ids", "storage refused %q at restart: invalid ids reported %q", w.ID, inv)
+	}
+	if err := r.s.CleanDatabase(); err != nil {
+		r.fail("C14.seq.reopen-refused.clean", "CleanDatabase: %v", err)
+	}
+	r.m.remove(w)
+	for _, x := range r.m.Live {
+		if x.Started {
+			if t := r.s.GetTorrent(x.ID); t != nil {
+				x.EverStarted = true
+				r.settle(t, "running after restart", running(x.HasInfo))
+			}
+		}
+	}
+	r.checkRegistry(r.s, r.m.Live, "C14.seq.reopen-refused", false)
+	r.doReopen(false)
 }
 
 // doReopen: Close, inspect the file, NewSession on the same file, compare every torrent with its record.
@@ -1208,7 +1252,7 @@ func TestC14Seq(t *testing.T) {
 	}
 	rep.Rule = fmt.Sprintf("operation histories on a real torrent.Session with a 3-port range; alphabet = AddTorrent{id a (stopped, opts), id b (started), auto id}, AddURI{magnet id m}, "+
 		"failing adds {garbage bytes, garbage magnet, storage-provider error via AddTorrent and via AddURI; duplicate id and no-free-port arise from state}, "+
-		"RemoveTorrent{a,b,m,first auto} x {keep,delete} (also of absent ids), Start/Stop/AddTracker on each live target, CompactDatabase (+load the compacted file in a second session), Close+NewSession. "+
+		"RemoveTorrent{a,b,m,first auto} x {keep,delete} (also of absent ids), Start/Stop/AddTracker on each live target, CompactDatabase (+load the compacted file in a second session), Close+NewSession, Close+NewSession with a storage provider that refuses torrent a (record reads fine, cannot be loaded: session without it, id reported invalid, no port held) + CleanDatabase + plain restart. "+
 		"Enumerated: every applicable sequence of length <= %d without de-duplication, plus every sequence of length <= %d after the full-house prefix [addT:a addT:b addM:m]; "+
 		"thorough adds a BFS to depth %d in which a state (sorted (slot, port offset, started, #trackers, name, ever-ran, loaded-from-db) + free ports) is expanded once. "+
 		"Every history runs on a fresh database and temp dir; all oracles run after every operation; an implicit Close+reopen+compare ends every history. distinct = distinct canonical states.",
@@ -1351,7 +1395,7 @@ func TestC14Seq(t *testing.T) {
 	}
 	rep.Extra["distinct_operations_used"] = int64(len(opClasses))
 	rep.Extra["bounds"] = fmt.Sprintf("all sequences<=%d; full-house prefix + <=%d; dedup BFS depth %d; ports=3", seqDepth, fullHouseDepth, bfsDepth)
-	for _, k := range []string{"add_ok", "add_failed_garbage", "add_failed_storage", "add_failed_dup", "add_failed_noport", "rm_live", "rm_absent", "start", "stop", "addtracker", "reopen", "restart_compared"} {
+	for _, k := range []string{"add_ok", "add_failed_garbage", "add_failed_storage", "add_failed_dup", "add_failed_noport", "rm_live", "rm_absent", "start", "stop", "addtracker", "reopen", "reopen_refused", "restart_compared"} {
 		if totals[k] == 0 {
 			rep.Vacuous("vacuous: counter %s is zero", k)
 		}
